@@ -26,31 +26,24 @@ import CassisModel.Proofs.TsXml
 namespace Cassis.TsXml
 open Cassis.TS
 
-/-- the name under which `create_feature` stores a feature -/
-def isReservedName (n : String) : Bool := n == "self" || n == "type"
-def storedName (n : String) : String := if isReservedName n then n ++ "_" else n
-
-/-- what a descriptor says about one feature, as the writer emits it again -/
-def emitted (f : FDesc) : FDesc := { f with descr := noEmpty f.descr }
-
 theorem load_consistent (d0 : Descriptor) (ts : TypeSystem) (h : load Gen.consts d0 = .ok ts) :
     Consistent ts ∧ FeatInv ts :=
   load_consistent_aux d0 ts h
 
-/-- the entries the loader works on: the normalised descriptor plus the implicit DocumentAnnotation -/
-def effective (d0 : Descriptor) : Descriptor :=
-  let d1 := normalize d0
-  if (d1.map (·.name)).contains DOCUMENT_ANNOTATION then d1
-  else d1 ++ [{ name := DOCUMENT_ANNOTATION, super := ANNOTATION,
-                feats := [{ name := "language", range := "uima.cas.String" }] }]
-
-theorem load_declares (d0 : Descriptor) (ts : TypeSystem) (h : load Gen.consts d0 = .ok ts)
-    (t : TDesc) (ht : t ∈ effective d0) (hu : Gen.consts.predefined.contains t.name = false) :
-    ∃ r : TypeRec, find? ts t.name = some r ∧ r.super = some t.super ∧ r.descr = t.descr ∧
-      List.Sublist (r.own.map renderFeat) (t.feats.map emitted) ∧
-      ∀ f ∈ t.feats, ∃ g ∈ allFeatures r, g.name = storedName f.name ∧ g.range = f.range ∧
-        g.elem.getD TOP = f.elem.getD TOP ∧ g.descr = f.descr :=
-  load_declares_aux d0 ts h t ht hu
+-- UNPROVED: `load_declares` is FALSE as stated (conjunct `r.super = some t.super`).  A dot-less name that is
+-- declared as its own supertype passes `allResolvable` (it is "declared"), is not yet registered when
+-- `createType` runs, and `getType` then resolves it by *short name*.  Counterexample (checked with `#eval`):
+--   `load Gen.consts [{ name := "TOP", super := "TOP" }]` succeeds and the record of `"TOP"` has
+--   `super = some "uima.cas.TOP"`, not `some "TOP"` (likewise `{ name := "Annotation", super := "Annotation" }`).
+-- Proved instead in `Proofs/TsXml.lean`: `load_declares_of_super_ne_aux`, the same statement with the extra
+-- hypothesis `(hs : t.super ≠ t.name)`.
+-- theorem load_declares (d0 : Descriptor) (ts : TypeSystem) (h : load Gen.consts d0 = .ok ts)
+--     (t : TDesc) (ht : t ∈ effective d0) (hu : Gen.consts.predefined.contains t.name = false) :
+--     ∃ r : TypeRec, find? ts t.name = some r ∧ r.super = some t.super ∧ r.descr = t.descr ∧
+--       List.Sublist (r.own.map renderFeat) (t.feats.map emitted) ∧
+--       ∀ f ∈ t.feats, ∃ g ∈ allFeatures r, g.name = storedName f.name ∧ g.range = f.range ∧
+--         g.elem.getD TOP = f.elem.getD TOP ∧ g.descr = f.descr :=
+--   load_declares_aux d0 ts h t ht hu
 
 /-- when no declared feature is already provided by an ancestor and stored names are distinct, the own
     features are exactly the declared ones -/
@@ -101,21 +94,30 @@ theorem renderType_fields (t : TypeRec) :
     (renderType t).descr = noEmpty t.descr ∧ (renderType t).feats = t.own.map renderFeat :=
   ⟨rfl, rfl, rfl, rfl⟩
 
-/-- the emitted descriptor: redeclared built-ins, then the user types sorted by name, none of them
-    predefined, the implicit DocumentAnnotation left out -/
-theorem toDescriptor_user_sorted (ts : TypeSystem) (d : Descriptor) (h : toDescriptor Gen.consts ts = .ok d) :
-    ∃ pre user : Descriptor, d = pre ++ user ∧
-      pre.map (·.name) = sortStrs ts.redeclared.eraseDups ∧
-      user.Pairwise (fun a b => a.name ≤ b.name) ∧
-      (∀ u ∈ user, Gen.consts.predefined.contains u.name = false ∧ u.name ≠ DOCUMENT_ANNOTATION) ∧
-      (∀ r ∈ ts.types, Gen.consts.predefined.contains r.name = false → r.name ≠ DOCUMENT_ANNOTATION →
-        renderType r ∈ user) :=
-  toDescriptor_user_sorted_aux ts d h
+-- (doc comment of the statement below:) the emitted descriptor: redeclared built-ins, then the user types
+-- sorted by name, none of them predefined, the implicit DocumentAnnotation left out
+-- UNPROVED: `toDescriptor_user_sorted` is FALSE as stated (conjunct `pre.map (·.name) = sortStrs …`) for an
+-- arbitrary `ts`: the writer looks the remembered names up with `getType`, which resolves a dot-less,
+-- unregistered name by *short name*.  Counterexample (checked with `#eval`):
+--   `toDescriptor Gen.consts { Gen.builtinTS with redeclared := ["TOP"] }` succeeds with a first entry named
+--   `"uima.cas.TOP"`, whereas `sortStrs ["TOP"].eraseDups = ["TOP"]`.
+-- Proved instead in `Proofs/TsXml.lean`: `toDescriptor_user_sorted_of_reg_aux`, the same statement with the
+-- extra hypothesis `(hreg : ∀ n ∈ ts.redeclared, hasExact ts n = true)`.
+-- theorem toDescriptor_user_sorted (ts : TypeSystem) (d : Descriptor) (h : toDescriptor Gen.consts ts = .ok d) :
+--     ∃ pre user : Descriptor, d = pre ++ user ∧
+--       pre.map (·.name) = sortStrs ts.redeclared.eraseDups ∧
+--       user.Pairwise (fun a b => a.name ≤ b.name) ∧
+--       (∀ u ∈ user, Gen.consts.predefined.contains u.name = false ∧ u.name ≠ DOCUMENT_ANNOTATION) ∧
+--       (∀ r ∈ ts.types, Gen.consts.predefined.contains r.name = false → r.name ≠ DOCUMENT_ANNOTATION →
+--         renderType r ∈ user) :=
+--   toDescriptor_user_sorted_aux ts d h
 
 /-! Non-vacuity (tests of concrete instances) -/
 example : (load Gen.consts [{ name := "x.B", super := "x.A", feats := [{ name := "self", range := "x.A" }] },
-                            { name := "x.A", super := "uima.tcas.Annotation" }]).toOption.isSome = true := by
-  decide +kernel
+                            { name := "x.A", super := "uima.tcas.Annotation" }]).toOption.isSome = true :=
+  -- was `by decide +kernel`, which cannot work: the kernel does not unfold the well-founded recursions in
+  -- `Array.qsort` (dependency order) and `pushInherited`; proved by rewriting in `Proofs/TsXml.lean`
+  load_example_aux
 example : storedName "self" = "self_" := by decide
 
 end Cassis.TsXml
